@@ -3,6 +3,7 @@
 //@ assume ZXSpecs field values returned by ZXMachine::specs() are assumed here (spec `specs_ok`) and proved on the real lazy_static tables by Kani harness K-core::specs_48k/specs_128k
 //@ assume ZXMachine::bank_is_contended == {0} / {1,3,5,7}: assumed here (closure with pattern is outside the Verus subset), proved by Kani harness K-core::bank_is_contended
 //@ assume tape/mixer/screen/border calls inside wait_internal/new_frame/write_internal/write_7ffd/set_border_color are external: each takes &mut to its own struct only (frame by ownership); their behaviour is the subject of C08/C09/C11/C19 units
+//@ assume ZXMemory::ram_page_data_mut / rom_page_data_mut (return &mut of a Vec range; vstd has no spec for Vec::index_mut over ranges) are not in this unit: their slice range is proved by Kani harness K-core::memory::page_slices
 //@ assume trait dispatch: the methods of `impl Z80Bus for ZXController` are verified as inherent methods (R-inherent); that the CPU calls exactly these through the trait is Rust semantics, not re-proved
 //@ assume Host/IoExtender/DebugInterface implementations are arbitrary (uninterpreted); IoExtender::extends_port is treated as a pure function of (&self, port)
 use vstd::prelude::*;
@@ -186,6 +187,14 @@ impl ZXMemory {
 //@ sig
         requires block < 4,
         ensures r == self.map@[block as int],
+//@ end
+
+//@ fn rustzx-core/src/zx/memory.rs impl ZXMemory::ram_page_data props C06 C13 C15
+//@ ret r
+//@ sig
+        requires (page as int + 1) * 16384 <= self.ram@.len(),
+        // exactly the 16 KiB of RAM bank `page`
+        ensures r@ == self.ram@.subrange(page as int * 16384, page as int * 16384 + 16384),
 //@ end
 
 //@ fn rustzx-core/src/zx/memory.rs impl ZXMemory::get_page props C06 C04
